@@ -309,18 +309,16 @@ pub fn run(ctx: &mut Ctx) {
                 ctx.class("history_clone");
             }
             let target: &Sm4Cipher = if !clones.is_empty() && p.below(3) == 0 { p.pick(&clones) } else { l };
-            // now and then a call that must FAIL (block of 0, 15, 17 or 32 bytes): it must return an error and must not
-            // disturb the object for the calls that follow
+            // now and then a call outside the domain (block of 0, 15, 17 or 32 bytes): it must not disturb the object for
+            // the calls that follow
             if p.below(25) == 0 {
                 let bl = [0usize, 15, 17, 32][p.below(4) as usize];
                 let bad = p.bytes(bl);
                 ctx.eval();
                 ctx.class("history_failed_call");
                 let o = if dir == 0 { guard(|| target.encrypt(&bad)) } else { guard(|| target.decrypt(&bad)) };
-                match o {
-                    Outcome::Ret(Err(_)) => {}
-                    o => ctx.violation(&format!("Sm4Cipher::{}:history:block-of-{}-bytes:{}", if dir == 0 { "encrypt" } else { "decrypt" }, bad.len(), if o.is_ret() { "ok" } else { o.class() }), json!({"key": hex::encode(key), "block_len": bad.len()})),
-                }
+                // how the out-of-domain call itself ends is C20's business; here only its after-effects are judged
+                ctx.class(&format!("history_failed_call:{}", match &o { Outcome::Ret(Err(_)) => "err", Outcome::Ret(Ok(_)) => "ok", _ => "crash" }));
             }
             ctx.distinct("hist", &[&key, &x, &[dir]]);
             if let Some(o) = block_call(ctx, target, dir, &key, &x, "history") {
